@@ -261,6 +261,11 @@ func (d *OrderedDaemon) Start() {
 	d.lock.Lock()
 	defer d.lock.Unlock()
 
+	// the check above is not synchronized with the shutdown: check again while holding the lock.
+	if d.IsStopped() {
+		return
+	}
+
 	if !d.IsRunning() {
 		d.running.Store(true)
 		for name, worker := range d.workers {
@@ -306,7 +311,11 @@ func (d *OrderedDaemon) shutdown() {
 		d.logger.LogDebugf("Shutting down ...")
 	}
 
+	// the stopped flag is set while holding the lock, so that a concurrent Start or BackgroundWorker
+	// either completes before the shutdown looks at the daemon or observes the flag under the lock.
+	d.lock.Lock()
 	d.stopped.Store(true)
+	d.lock.Unlock()
 	d.stoppedCtxCancel()
 	if !d.IsRunning() {
 		return
